@@ -1,30 +1,36 @@
 --------------------------------- MODULE MC_Forms ---------------------------------
 (* Design level for the statement forms added in round 5 (C15/C16):                                                    *)
-(*   .const n1 = ..   .var v = 1   expr p1 + p2   .var v = 2   .if defined(p3) { use p4 }   .loop n1 { use p5 }          *)
+(*   .const n = ..  .if defined(p0) { use q0 }  .var v = 1  expr p1 + p2  .var v = 2  .if defined(p3) {..}  .loop n { use p5 }   *)
 (* Checked: every path occurrence of one expression has its own occurrence and the same node when the paths are equal;  *)
-(* a later `.var' denotes the first one; the operand of defined() denotes what a plain use denotes; `index' denotes      *)
+(* a later `.var' denotes the first one; in front of the first `.var' the name denotes nothing (variables are sequential); the operand of defined() denotes what a plain use denotes; `index' denotes      *)
 (* nothing; renaming to a fresh name is capture-free.  The programs are exported as cases for the real server.          *)
 EXTENDS Scopes, Json
-VARIABLES p1, p2, p3, p4, p5
-vars == <<p1, p2, p3, p4, p5>>
+VARIABLES p0, q0, p1, p2, p3, p5
+vars == <<p0, q0, p1, p2, p3, p5>>
 Use(p, base) == [k |-> "use", path |-> p, oids |-> [i \in 1..Len(p) |-> base + i]]
-Prog == << [k |-> "const", name |-> "n", oid |-> 1], [k |-> "var", name |-> "v", oid |-> 2],
+(* oids are in walk order; `.if defined(p0) { use q0 }' stands IN FRONT of the first assignment of v *)
+Prog == << [k |-> "const", name |-> "n", oid |-> 1],
+           [k |-> "ifdef", path |-> p0, oids |-> <<5>>, body |-> << Use(q0, 6) >>],
+           [k |-> "var", name |-> "v", oid |-> 8],
            [k |-> "expr", paths |-> <<p1, p2>>, oidss |-> <<<<11>>, <<12>>>>],
-           [k |-> "var", name |-> "v", oid |-> 3],
-           [k |-> "ifdef", path |-> p3, oids |-> <<21>>, body |-> << Use(p4, 30) >>],
+           [k |-> "var", name |-> "v", oid |-> 13],
+           [k |-> "ifdef", path |-> p3, oids |-> <<21>>, body |-> << Use(<<"n">>, 30) >>],
            [k |-> "loop", path |-> <<"n">>, oids |-> <<41>>, sid |-> "$l1", body |-> << Use(p5, 50) >>] >>
 Files == [m |-> Prog]
 P == Project(Files, "m")
 Names == {<<"n">>, <<"v">>}
-Init == p1 \in Names /\ p2 \in Names /\ p3 \in Names /\ p4 \in Names /\ p5 \in Names \cup {<<"index">>}
+Init == p0 \in Names /\ q0 \in Names /\ p1 \in Names /\ p2 \in Names /\ p3 \in Names /\ p5 \in {<<"n">>, <<"index">>}
 Next == UNCHANGED vars
 Spec == Init /\ [][Next]_vars
-EachOccurrenceCounts == /\ {o.oid : o \in P.occs} = {1, 2, 3, 11, 12, 21, 31, 41, 51}
+EachOccurrenceCounts == /\ {o.oid : o \in P.occs} = {1, 5, 7, 8, 11, 12, 13, 21, 31, 41, 51}
                         /\ (p1 = p2 => NodeOf(P, 11) = NodeOf(P, 12))
                         /\ RenameSet(P, 1) = {o.oid : o \in {x \in P.occs : x.node = 1}}
-VarIsOneSymbol == NodeOf(P, 3) = 2 /\ ~OccOf(P, 3).def /\ OccOf(P, 2).def
-DefinedIsAUse == NodeOf(P, 21) = (IF p3 = <<"n">> THEN 1 ELSE 2)
+VarIsOneSymbol == NodeOf(P, 13) = 8 /\ ~OccOf(P, 13).def /\ OccOf(P, 8).def
+(* variables are sequential: in front of the first assignment the name denotes nothing *)
+NotYetAssigned == (p0 = <<"v">> => NodeOf(P, 5) = -1) /\ (q0 = <<"v">> => NodeOf(P, 7) = -1)
+                  /\ (p1 = <<"v">> => NodeOf(P, 11) = 8) /\ Refs(P, 8, FALSE) \cap {5, 7} = {}
+DefinedIsAUse == NodeOf(P, 21) = (IF p3 = <<"n">> THEN 1 ELSE 8) /\ (p0 = <<"n">> => NodeOf(P, 5) = 1)
 IndexDenotesNothing == p5 = <<"index">> => NodeOf(P, 51) = NoNode
-FreshRenameIsCaptureFree == \A o \in P.occs : o.sp # NoNode => CaptureFree(Files, "m", o.oid, "zz")
+FreshRenameIsCaptureFree == \A o \in P.occs : (o.sp # NoNode /\ o.node # -1) => CaptureFree(Files, "m", o.oid, "zz")
 EmitCase == PrintT(<<"CASE", ToJson([prog |-> Prog])>>)
 ================================================================================
